@@ -1006,9 +1006,7 @@ def pressure_module(ptr_size, tyname, op, n_live, with_call):
     for i, v in enumerate(live):
         acc = ir.Binop(acc, "^" if i % 2 else "+", v, "s%d" % i, ty)
         blk.add_instruction(acc)
-    pg = ir.AddressOf(g, "pg")
-    blk.add_instruction(pg)
-    blk.add_instruction(ir.Store(t, pg))
+    blk.add_instruction(ir.Store(t, g))
     blk.add_instruction(ir.Return(acc))
     return m
 
